@@ -139,6 +139,19 @@ fn gen_rules(r: &mut Rng) -> Vec<String> {
         }
         v.push(format!("{}${}", pat, opts.join(",")));
     }
+    // a removeparam rule together with its $badfilter twin (the rule is then not in force), or with a
+    // near twin that names another parameter (cancels nothing)
+    if r.chance(1, 5) && !v.is_empty() {
+        let base = v[r.below(v.len())].clone();
+        if base.contains("removeparam=") {
+            if r.chance(2, 3) {
+                v.push(format!("{},badfilter", base));
+            } else {
+                let other = base.replacen("removeparam=", "removeparam=x", 1);
+                v.push(format!("{},badfilter", other));
+            }
+        }
+    }
     if r.chance(1, 5) {
         v.push(format!("{}$important", gen::pattern(r)));
     }
@@ -412,7 +425,9 @@ fn eval(rules: &[String], url: &str, src: &str, ty: &str, mode: usize, batch: us
     for line in rules {
         if let Ok(f) = NetworkFilter::parse(line, true, Default::default()) {
             use adblock::filters::network::NetworkFilterMaskHelper;
-            if f.is_removeparam() && !f.is_badfilter() {
+            // (a rule whose line is repeated with `,badfilter` appended is not in force)
+            let cancelled = rules.iter().any(|l| l.trim() == format!("{},badfilter", line.trim()));
+            if f.is_removeparam() && !f.is_badfilter() && !cancelled {
                 let mut rm = RegexManager::default();
                 let hit = f.matches(&req, &mut rm);
                 // the crate's matcher against the reading of the rule text
@@ -466,7 +481,7 @@ fn main() {
         let url = gen_url(&mut r);
         // the source is never empty here: "no source + domain= rule" is the C01 finding F2, not a C14 matter
         let src = { let s = gen::source_url(&mut r); if s.is_empty() { "https://a.com/page".to_string() } else { s } };
-        let ty = r.pick(&["document", "xhr", "subdocument", "script", "image", "main_frame"]);
+        let ty = r.pick(&["document", "xhr", "subdocument", "script", "image", "main_frame", "csp_report", "fetch", "other", "sub_frame"]);
         let mode = r.below(4);
         // mode 3 cannot load $badfilter rules (add_filter rejects them) and F13-style duplicates: keep it to lists without them
         let mode = if mode == 3 && rules.iter().any(|l| l.contains("badfilter")) { 2 } else { mode };
